@@ -62,17 +62,19 @@ type sys struct {
 	keys int
 	pls  []string // payload names in the alphabet (for every key)
 	xev  []string // extra write events (a payload restricted to one key, e.g. "w1c")
+	dels int      // keys 1..dels can be deleted (0 = all)
 
-	vid     uint32
-	n       *int64 // instance counter shared by every sys on this cluster
-	bkDir   string
-	model   map[uint64]string // key -> "a" | "b" | "del" ; missing = never written
-	compact int               // source compactions so far
-	backups int               // backup runs so far
-	wrote   bool              // source written since the last compaction
-	hist    []string
-	lastErr string
-	branch  string // which runBackup branches the last backup took
+	vid             uint32
+	n               *int64 // instance counter shared by every sys on this cluster
+	bkDir           string
+	model           map[uint64]string // key -> "a" | "b" | "del" ; missing = never written
+	compact         int               // source compactions so far
+	compactAtBackup int               // ... at the time of the previous backup run
+	backups         int               // backup runs so far
+	wrote           bool              // source written since the last compaction
+	hist            []string
+	lastErr         string
+	branch          string // which runBackup branches the last backup took
 }
 
 func (s *sys) Reset() {
@@ -81,7 +83,7 @@ func (s *sys) Reset() {
 	s.c.MustAddVolume(s.vid, "", "000", "")
 	s.bkDir = s.c.SubDir(fmt.Sprintf("bk%d", id))
 	s.model = map[uint64]string{}
-	s.compact, s.backups, s.wrote = 0, 0, false
+	s.compact, s.compactAtBackup, s.backups, s.wrote = 0, 0, 0, false
 	s.hist = nil
 }
 
@@ -100,7 +102,7 @@ func (s *sys) Events() []string {
 		}
 	}
 	ev = append(ev, s.xev...)
-	for k := 1; k <= s.keys; k++ {
+	for k := 1; k <= s.keys && (s.dels == 0 || k <= s.dels); k++ {
 		ev = append(ev, fmt.Sprintf("d%d", k))
 	}
 	return append(ev, "compact", "backup")
@@ -239,7 +241,8 @@ func (s *sys) backupAndCompare() string {
 	prior := s.backups
 	s.backups++
 	v, err := s.runBackup()
-	feat := fmt.Sprintf("source-compacted=%v:incremental=%v", s.compact > 0, prior > 0)
+	feat := fmt.Sprintf("source-compacted-since-last-backup=%v:incremental=%v", s.compact > s.compactAtBackup, prior > 0)
+	s.compactAtBackup = s.compact
 	if err != nil {
 		closeVol(v)
 		s.lastErr = err.Error()
@@ -408,7 +411,7 @@ func newSys(r *mc.Run, keys int, pls []string, xev ...string) *sys {
 
 // replay runs a history on its own instance (its own source volume and backup dir) of the same cluster.
 func replay(s0 *sys, events []string) string {
-	s := &sys{r: s0.r, c: s0.c, keys: s0.keys, pls: s0.pls, xev: s0.xev, n: s0.n}
+	s := &sys{r: s0.r, c: s0.c, keys: s0.keys, pls: s0.pls, xev: s0.xev, dels: s0.dels, n: s0.n}
 	s.Reset()
 	defer s.Close()
 	for _, ev := range events {
@@ -440,17 +443,22 @@ func run(r *mc.Run) {
 	type pass struct {
 		keys   int
 		pls    []string
-		xev    []string
+		xev    []string // "w1c": key 1 can be overwritten with different bytes of the same stored size
+		dels   int      // deletable keys (0 = all)
 		d0, d1 int
 	}
-	// "w1c": key 1 can be overwritten with different bytes of the same stored size
-	passes := []pass{{2, []string{"a"}, []string{"w1c"}, 3, 5}}
+	passes := []pass{{2, []string{"a"}, []string{"w1c"}, 1, 3, 5}}
 	if r.Thorough() {
-		passes = []pass{{2, []string{"a", "b"}, []string{"w1c"}, 3, 5}, {2, []string{"a", "b"}, nil, 3, 6}, {3, []string{"a"}, nil, 2, 5}}
+		passes = []pass{
+			{2, []string{"a"}, []string{"w1c"}, 0, 3, 6},
+			{2, []string{"a", "b"}, nil, 0, 3, 5},
+			{3, []string{"a"}, nil, 0, 2, 5},
+		}
 	}
 	seenClass := map[string]int{}
 	for _, p := range passes {
 		s := newSys(r, p.keys, p.pls, p.xev...)
+		s.dels = p.dels
 		res := bfs(r, s, p.d0, p.d1, func(path []string, msg string) {
 			class, m := split(msg)
 			r.Distinct("violation|" + class)
@@ -490,6 +498,7 @@ func bfs(r *mc.Run, s0 *sys, d0, d1 int, onViolation func(path []string, msg str
 	var all []*sys
 	for i := 0; i < workers; i++ {
 		ws := newSys(r, s0.keys, s0.pls, s0.xev...)
+		ws.dels = s0.dels
 		all = append(all, ws)
 		pool <- ws
 	}
